@@ -126,7 +126,7 @@ impl CB {
 //@@ fn src/nfa/contiguous.rs | fn default() -> Builder | within=impl Default for Builder | res=r
 //@@ sigsub 1 /-> Builder/ => -> CB
 //@@ sub 1 /Builder \{/ => CB {
-//@@ sub 1 /noncontiguous::Builder::new\(\)/ => NB::new()
+//@@ sub 1 /noncontiguous::Builder::(new|default)\(\)/ => NB::\1()
 //@@ header
         ensures r.noncontiguous.match_kind is Standard, r.noncontiguous.prefilter, !r.noncontiguous.ascii_case_insensitive,
                 r.dense_depth == 2, r.byte_classes,
@@ -194,7 +194,7 @@ impl DB {
 //@@ fn src/dfa.rs | fn default() -> Builder | within=impl Default for Builder | res=r
 //@@ sigsub 1 /-> Builder/ => -> DB
 //@@ sub 1 /Builder \{/ => DB {
-//@@ sub 1 /noncontiguous::Builder::new\(\)/ => NB::new()
+//@@ sub 1 /noncontiguous::Builder::(new|default)\(\)/ => NB::\1()
 //@@ header
         ensures r.noncontiguous.match_kind is Standard, r.noncontiguous.prefilter, !r.noncontiguous.ascii_case_insensitive,
                 r.start_kind is Unanchored, r.byte_classes,
